@@ -523,3 +523,42 @@ Proof.
   - destruct (running_process s); free_tac HL HC Hnh.
   - destruct (send_command s); free_tac HL HC Hnh.
 Qed.
+
+Lemma unlocked_not_holder s t c p :
+  LkS s -> find_task (tasks s) t = Some (c, p) -> locked_pc p = false -> holder s <> Some t.
+Proof.
+  intros HL Hf Hl Hh. destruct (lk_holder_has _ _ _ HL t Hh) as (c' & p' & Hf' & Hl'). congruence.
+Qed.
+
+Ltac hstep s t HC :=
+  apply (CI_build s _ t); auto; fsimpl; ci_side;
+  first [ solve [apply (ci_closed _ HC)] | solve [apply (ci_sev _ HC)] | solve [apply of_put]
+        | solve [eapply of_trans; [apply of_rel | apply of_remove]]
+        | solve [eapply of_trans; [apply of_rel | apply of_put]]
+        | solve [intros c0 p0; rewrite find_remove_eq; discriminate]
+        | solve [put_entry; qc_tac] | idtac ].
+
+Lemma CI_do_step s t : LkS s -> FI s -> CI s -> CI (do_step s t).
+Proof.
+  intros HL HF HC. unfold do_step. destruct (find_task (tasks s) t) as [[c p]|] eqn:Ef; auto.
+  pose proof HF as [HP HS].
+  pose proof (HP _ _ _ Ef) as Hok.
+  pose proof (lk_compat _ _ _ HL _ _ _ Ef) as Hc.
+  pose proof (ci_tasks _ HC _ _ _ Ef) as (Hq1 & Hq2 & Hq3 & Hq4).
+  assert (Hhold : locked_pc p = true -> holder s = Some t /\ nl_started s = true /\ (p <> S_G1 -> st_fsm s <> Created)).
+  { intros Hl. assert (Hh : holder s = Some t) by (eapply (lk_holder_of _ _ _ HL); eauto).
+    repeat split; auto. eapply holder_started; eauto. intros Hp. eapply holder_not_created; eauto. }
+  destruct p; simpl in Hhold; try (destruct (Hhold eq_refl) as (Hh & Hst & Hncr); clear Hhold); auto; simpl in Hok.
+  - (* Granted1 *)
+    destruct (Hq1 (or_intror eq_refl)) as (Hn1 & Hn2).
+    eapply CI_enter; eauto. apply Hncr; discriminate. congruence.
+  - (* Granted2 *)
+    eapply CI_enter; eauto. apply Hncr; discriminate. destruct c; simpl in Hc; congruence.
+  - (* S_G1 *) hstep s t HC.
+  - (* S_G2 *) specialize (Hncr ltac:(discriminate)). hstep s t HC.
+  - (* S_G3 *) specialize (Hncr ltac:(discriminate)).
+    destruct c; simpl in Hc; try discriminate.
+    + hstep s t HC.
+    + admit.
+  - Show.
+Abort.
